@@ -569,7 +569,10 @@ func ExtendVoucher[T protocol.PublicKeyOrChain](v *Voucher, owner crypto.Signer,
 	if err != nil {
 		return nil, err
 	}
-	xv.Entries = append(xv.Entries, *entry)
+	// The clone shares the entry slice of v: append to a copy, so that extending
+	// v a second time cannot overwrite the entry added here through spare
+	// capacity of the shared backing array
+	xv.Entries = append(xv.Entries[:len(xv.Entries):len(xv.Entries)], *entry)
 	return xv, nil
 }
 
